@@ -92,6 +92,37 @@ func runUniform(src []byte) string {
 	return ""
 }
 
+// runSuiteFramed: DST and message are adjacent sub-slices of ONE caller buffer (tag slice with spare
+// capacity, followed by the message, followed by a canary): the mapping must not write past its inputs.
+func runSuiteFramed(ro bool, dstLen, msgLen int) string {
+	frame := append(append(pat(dstLen, 'd'), pat(msgLen, 'm')...), bytes.Repeat([]byte{0xc7}, 40)...)
+	orig := append([]byte{}, frame...)
+	dst, msg := frame[:dstLen], frame[dstLen:dstLen+msgLen] // cap(dst) > len(dst)
+	var want ref.Pt
+	f := h2c.Secp256k1_XMD_SHA256_SSWU_NU
+	if ro {
+		want, _ = ref.HashToCurveRO(orig[:dstLen], orig[dstLen:dstLen+msgLen])
+		f = h2c.Secp256k1_XMD_SHA256_SSWU_RO
+	} else {
+		want, _ = ref.EncodeToCurveNU(orig[:dstLen], orig[dstLen:dstLen+msgLen])
+	}
+	var p *secp256k1.Point
+	var err error
+	if pn := lib.Try(func() { p, err = f(dst, msg) }); pn != "" {
+		return "panic: " + pn
+	}
+	if err != nil {
+		return "suite failed: " + err.Error()
+	}
+	if m := lib.CheckPointLight(p, want); m != "" {
+		return "DST and message adjacent in one buffer: " + m
+	}
+	if !bytes.Equal(frame, orig) {
+		return "the caller's buffer was written to outside / inside the inputs (DST slice had spare capacity)"
+	}
+	return ""
+}
+
 func runSuite(ro bool, dstLen, msgLen int) string {
 	dst, msg := pat(dstLen, 'd'), pat(msgLen, 'm')
 	d0, m0 := append([]byte{}, dst...), append([]byte{}, msg...)
@@ -127,6 +158,20 @@ func runSuite(ro bool, dstLen, msgLen int) string {
 	return ""
 }
 
+// runUniformSeq: a call of length l1 followed by a call of length l2 (history independence of the wide reduction).
+func runUniformSeq(l1, l2 int) string {
+	a := bytes.Repeat([]byte{0xff}, l1)
+	b := pat(l2, 'u')
+	v := new(secp256k1.Point)
+	v.SetUniformBytes(a)
+	w := new(secp256k1.Point).SetUniformBytes(b)
+	want := ref.MapToCurve(ref.ModP(ref.OS2IP(b)))
+	if m := lib.CheckPointLight(w, want); m != "" {
+		return fmt.Sprintf("SetUniformBytes(len %d) right after a call with len %d: %s", l2, l1, m)
+	}
+	return ""
+}
+
 func runIsoPole() string {
 	hk := secp256k1.VerifIsoMap
 	if hk == nil {
@@ -152,6 +197,8 @@ func register() {
 	mc.Register("xmd", func(d mc.D) string { return runXMD(d.I("dst_len"), d.I("msg_len"), d.I("out_len")) })
 	mc.Register("uniform", func(d mc.D) string { return runUniform(d.B("src")) })
 	mc.Register("suite", func(d mc.D) string { return runSuite(d.Bool("ro"), d.I("dst_len"), d.I("msg_len")) })
+	mc.Register("suite-framed", func(d mc.D) string { return runSuiteFramed(d.Bool("ro"), d.I("dst_len"), d.I("msg_len")) })
+	mc.Register("uniform-seq", func(d mc.D) string { return runUniformSeq(d.I("l1"), d.I("l2")) })
 	mc.Register("isopole", func(d mc.D) string { return runIsoPole() })
 }
 
@@ -322,6 +369,41 @@ func main() {
 			R.Mismatch(fmt.Sprintf("suite/%s/dst>255=%v", name, j.d > 255), "suite", m, mc.D{"ro": j.ro, "dst_len": j.d, "msg_len": j.m})
 		}
 	})
+	// every DST length 1..300 and every message length 0..300 (one axis at a time), plain and framed
+	maxAxis := 300
+	if th {
+		maxAxis = 1100
+	}
+	type aj struct {
+		ro   bool
+		d, m int
+	}
+	var ajs []aj
+	for L := 1; L <= maxAxis; L++ {
+		ajs = append(ajs, aj{L%2 == 0, L, 33}, aj{L%2 == 1, 37, L - 1})
+	}
+	mc.Par(len(ajs), func(i int) {
+		j := ajs[i]
+		R.T(2)
+		h := mc.HS("axis", fmt.Sprint(j))
+		R.State(h)
+		R.NT(h)
+		if m := mc.Safe(func() string { return runSuite(j.ro, j.d, j.m) }); m != "" {
+			R.Mismatch(fmt.Sprintf("suite/every length/dst>255=%v", j.d > 255), "suite", m, mc.D{"ro": j.ro, "dst_len": j.d, "msg_len": j.m})
+		}
+		if m := mc.Safe(func() string { return runSuiteFramed(j.ro, j.d, j.m) }); m != "" {
+			R.Mismatch(fmt.Sprintf("suite/framed/dst>255=%v", j.d > 255), "suite-framed", m, mc.D{"ro": j.ro, "dst_len": j.d, "msg_len": j.m})
+		}
+	})
+	R.Class("suite/every DST length and every message length (plain + framed in one buffer)", int64(len(ajs)))
+	R.Bound("every_length_axis", fmt.Sprintf("DST 1..%d (msg 33), msg 0..%d (DST 37)", maxAxis, maxAxis-1))
+	// history independence of the uniform-bytes map: every ordered pair of lengths 32..64
+	for l1 := 32; l1 <= 64; l1++ {
+		for l2 := 32; l2 <= 64; l2++ {
+			R.Run("uniform/sequence of two lengths", "uniform-seq", mc.D{"l1": l1, "l2": l2})
+		}
+	}
+	R.Class("uniform/ordered pairs of lengths (call history)", 33*33)
 	R.Bound("suite_grid", fmt.Sprintf("DST lengths %v x message lengths %v x {RO,NU}, each called 3x from the same slices", sd, sm))
 	R.Sample("suite", map[string]any{"suite": "RO", "dst_len": 257, "msg_len": 56})
 	R.Expect("xmd/oversize DST (> 255)", "uniform/exceptional (tv1 = 0), sgn0(u)=0", "uniform/exceptional (tv1 = 0), sgn0(u)=1", "uniform/gx1 square (first candidate x1), sgn0(u)=0",
